@@ -21,6 +21,11 @@ def gen(tier, rnd):
     if tier == 'thorough':
         for _ in range(20): combos.append((rnd.randint(1, 6), rnd.randint(1, 12), rnd.randint(5, 80), rnd.choice(['end', 'mid', 'mid'])))
         for _ in range(10): combos.append((rnd.randint(1, 6), 0, 0, 'end'))
+    # clients that connect the instant the endpoint listens: the first connections race with the start-up of the workers
+    pres = [(2, 6, 4), (4, 12, 4), (8, 24, 3), (16, 48, 2), (8, 24, 3), (16, 48, 2)]
+    if tier == 'thorough':
+        for _ in range(20): w = rnd.choice([1, 2, 3, 4, 8, 16, 32]); pres.append((w, 3 * w, rnd.randint(1, 5)))
+    for (w, c, r) in pres: combos.append((w, c, r, 'pre'))
     for i, (w, c, r, sd) in enumerate(combos): L.append('mt %d %d %d %s %d' % (w, c, r, sd, i + 1))
     return L
 
@@ -30,6 +35,7 @@ def tsan_lines(tier, rnd):
     for i in range(n):
         L.append('mt %d %d %d %s %d' % (rnd.choice([2, 3, 4, 8]), rnd.choice([4, 8, 16]), rnd.choice([4, 6, 20]), rnd.choice(['end', 'end', 'mid']), 100 + i))
     L.append('mt 2 0 0 end 99')
+    for i, w in enumerate([4, 8, 16] if tier == 'quick' else [2, 4, 8, 8, 16, 16, 32]): L.append('mt %d %d 3 pre %d' % (w, 3 * w, 200 + i))
     return L
 
 BAD = ('ASAN', 'UBSAN', 'HANG', 'CRASH', 'TERMINATE', 'MISSING', 'bad-op', 'connect-failed', 'TSAN')
@@ -63,6 +69,7 @@ def oracle(ln, out):
     if f.get('sdthreads') not in ('0',): return ('threads', '%s framework thread(s) still alive 1.5 s after shutdown() returned (endpoint not yet destroyed)' % f.get('sdthreads'))
     if f.get('threads') not in ('0',): return ('threads', '%s framework thread(s) still alive after shutdown and destruction' % f.get('threads'))
     if f.get('tables') != '4': return ('shared-write', 'the shared routing table has %s method tables after serving (4 registered)' % f.get('tables'))
+    if f.get('sharedcopies') != '0': return ('two-threads', '%s per-worker handler copies were driven by more than one thread (connection state is to be touched by its worker only)' % f.get('sharedcopies'))
     return None
 
 def oracle_tsan(ln, out):
@@ -72,6 +79,7 @@ def oracle_tsan(ln, out):
     if f.get('answered') != 'all-own' or f.get('bad') != '0': return ('wrong-answer', 'responses did not belong to their requests: ' + out[:160])
     # (the ThreadSanitizer runtime keeps a background thread of its own: compare with the count after destruction)
     if f.get('shutdown') != 'ok' or f.get('acceptor') != 'stopped' or f.get('sdthreads') != f.get('threads'): return ('shutdown', out[:160])
+    if f.get('sharedcopies') != '0': return ('two-threads', '%s per-worker handler copies were driven by more than one thread' % f.get('sharedcopies'))
     return None
 
 def classify(ln, out):
